@@ -24,6 +24,7 @@ from ..core import Partial, pmap, pqueue, HarnessError
 from .. import schedlab as S
 
 PID = 'C11'
+RELEASE = '-O2 -DNDEBUG'
 
 
 def classify(text):
@@ -61,7 +62,10 @@ def experiments(thorough):
             ('H2/bare interface (one out-event) 2 clients, asks', 'h2b', [2, 1, 0, 2], 1, 2),
             ('H2/import 2 clients, asks, denied clients send stale releases', 'h2i', [2, 1, 0, 6], 1, 2),
             ('H2 2 clients + environment events, stale releases', 'h2', [2, 1, 1, 4], 1, 3),
+            ('H2/release build (-O2 -DNDEBUG) 2 clients, holder asks for out-event', 'h2n', [2, 1, 0, 2], 1, 2),
         ]
+        for mode in range(4):
+            exps.append((f'H1/release build (-O2 -DNDEBUG) 2 threads mode={mode}', 'h1n', [2, mode], -1, 0))
     else:
         for mode in range(8):
             exps.append((f'H1 3 threads mode={mode}', 'h1', [3, mode], -1, 3))
@@ -83,7 +87,13 @@ def experiments(thorough):
             ('H2/import 2 clients, asks, stale releases', 'h2i', [2, 1, 0, 6], 2, 3),
             ('H2/import 3 clients, asks, stale releases', 'h2i', [3, 1, 0, 6], 1, 4),
             ('H2 2 clients + environment events, stale releases', 'h2', [2, 1, 1, 4], 2, 4),
+            ('H2/release build (-O2 -DNDEBUG) 2 clients, asks - ALL schedules', 'h2n', [2, 1, 0, 2], -1, 4),
+            ('H2/release build (-O2 -DNDEBUG) 2 clients + environment events, bound 2', 'h2n', [2, 1, 1, 0], 2, 4),
         ]
+        for mode in range(4):
+            exps.append((f'H1/release build (-O2 -DNDEBUG) 2 threads mode={mode}', 'h1n', [2, mode], -1, 0))
+        for mode in range(8):
+            exps.append((f'H1/release build (-O2 -DNDEBUG) 3 threads mode={mode}', 'h1n', [3, mode], 2, 3))
     return exps
 
 
@@ -195,7 +205,10 @@ def compile_all(src, src_import=None, src_bare=None):
     if src_bare:
         # ... and around a multi-client interface that has nothing but claim, release and ONE out-event
         specs['h2b'] = (src_bare, ['h2.cc', 'sched_interpose.cc'], 'sched')
-    bins = {k: S.Binary(s_, mains, mode) for k, (s_, mains, mode) in specs.items()}
+    # the same harnesses the way a RELEASE configuration of the user's project compiles the generated headers
+    specs['h1n'] = (src, ['h1.cc', 'sched_interpose.cc'], 'sched', RELEASE)
+    specs['h2n'] = (src, ['h2.cc', 'sched_interpose.cc'], 'sched', RELEASE)
+    bins = {k: S.Binary(spec[0], spec[1], spec[2], *spec[3:]) for k, spec in specs.items()}
     with concurrent.futures.ThreadPoolExecutor(4) as pool:
         list(pool.map(lambda b: b.__enter__(), bins.values()))
     return bins
@@ -211,9 +224,9 @@ def judge(case):
     src = S.sources(S.mc_case(delta))
     mains = {'h1': ['h1.cc', 'sched_interpose.cc'], 'h2': ['h2.cc', 'sched_interpose.cc'],
              'h2i': ['h2.cc', 'sched_interpose.cc'], 'h2i_tsan': ['h2.cc', 'sched_free.cc'],
-             'h2b': ['h2.cc', 'sched_interpose.cc'],
+             'h2b': ['h2.cc', 'sched_interpose.cc'], 'h1n': ['h1.cc', 'sched_interpose.cc'], 'h2n': ['h2.cc', 'sched_interpose.cc'],
              'h1_tsan': ['h1.cc', 'sched_free.cc'], 'h2_tsan': ['h2.cc', 'sched_free.cc']}[which]
-    with S.Binary(src, mains, 'tsan' if which.endswith('tsan') else 'sched') as binary:
+    with S.Binary(src, mains, 'tsan' if which.endswith('tsan') else 'sched', *([RELEASE] if which.endswith('n') and not which.endswith('tsan') else [])) as binary:
         if binary.exe is None:
             return [('harness-does-not-compile', binary.error[:300])]
         if which.endswith('tsan'):
@@ -221,7 +234,7 @@ def judge(case):
             races = set(re.findall(r'SUMMARY: ThreadSanitizer: (.*)', err))
             return [(f'tsan:{r[:80]}', r) for r in races]
         csv = ','.join(map(str, case['schedule']))
-        argv = case['args'] + ([0, csv, 1] if which == 'h1' else [0, csv, 1, 0])
+        argv = case['args'] + ([0, csv, 1] if which.startswith('h1') else [0, csv, 1, 0])
         import os  # pylint: disable=import-outside-toplevel
         os.environ['VF_NOCACHE'] = '1'
         _code, lines, _err = binary.run(argv)
